@@ -10,7 +10,7 @@ TECH = "static analysis over rustc MIR (custom rustc_private driver + python rul
 CLAIMS = {
     "C05": ("provenance of every allocation size in the reading set (CONST|LEN|LIMIT|guard value, parameters checked at callers), guard polarity on the MIR comparison operator, declared-count provenance, overflow asserts on input-derived operands, closed panic-site inventory",
             "static analysis: backward provenance slicing + call-graph closure + panic-site inventory over MIR"),
-    "C06": ("dominance query: no Ok constructed on the Err edge of any read result in the reading set (both decoders, readers); decoder/validator variant table agreement",
+    "C06": ("dominance query: no Ok constructed on the Err edge of any read result in the reading set (both decoders, readers); for each of the 31 schema shapes the decoder builds only the Value variant validation accepts for it; enum and union indices are range-checked before a value is built",
             "static analysis: dominance/edge-region query + variant-partitioned path summaries over MIR"),
     "C13": ("no partial Write::write on caller sinks, no dropped byte counts, no discarded sink results, no explicit panic in Writer::drop - on every function of the crate",
             "static analysis: resolved-callee query + taint over MIR"),
@@ -33,6 +33,10 @@ CLAIMS["C11"] = ("gate rules on every acceptance path of the parser (Name, names
                  "static analysis: dominance gates + who-may-construct + panic-site inventory over MIR")
 CLAIMS["C02"] = ("per-shape wire-token sequences of decode_internal and encode_internal (zig-zag class, raw lengths, byte order of float/u32/big-integer conversions, uuid text/binary form, block headers, recursion, loop depth; one sequence per success path) equal the hand-transcribed specification table for all 31 schema shapes; both block-header readers read the byte size exactly on the negative-count edge, negate with a checked operation and end on 0; the buffered and direct serde block writers emit negative count + byte size + payload and the 0 terminator; big-decimal framing and the duration byte layout mirror each other",
                  "static analysis: variant-partitioned path summaries over MIR reduced to a token alphabet of resolved callees, compared with a specification table")
+CLAIMS["C01"] = ("encoder/decoder agreement per schema shape: stream tokens (zig-zag class, raw moves and static lengths, recursion, loop depth) and conversion tokens (byte order, text/binary form) of encode_internal(V(S),S) vs decode_internal(S) on every success path, for all 31 shapes; totality of both; no read-ahead adapter on a caller-supplied reader; validation borrows the value immutably and Value is Freeze",
+                 "static analysis: variant-partitioned path summaries of encoder vs decoder over MIR, adapter lint, compiler type facts")
+CLAIMS["C07"] = ("for every (Value variant, schema shape) pair with an accepting path in validate_internal (98 today) the encoder has a success path whose stream tokens are the decoder's for that shape (or a listed, re-checked special form); validate dominates encode and the first sink write in every validating writer and the reject edge reaches neither; the encoder bounds enum indices by the schema",
+                 "static analysis: acceptance relation x encoder/decoder wire tables (variant-partitioned path summaries) + dominance rules over MIR")
 NA_DEFAULT = "check under construction in this round (see DESIGN.md); not yet claimed"
 
 
